@@ -77,6 +77,7 @@ def base_case(draw, tier, data_kind=None, depths=vs.DEPTHS_STREAM, min_chans=1, 
     eff = n - start if nsamps is None else nsamps
     gulp = draw(st.one_of(st.integers(1, eff + 3), st.integers(1, max(1, eff // 2))))
     return {"layout": lay, "start": start, "nsamps": nsamps, "gulp": gulp, "prior": draw(vs.prior_use(n)),
+            "default_names": draw(st.sampled_from([False, False, True])), "np_ints": draw(st.sampled_from([False, False, False, True])),
             "fch1": draw(st.sampled_from([1400.0, 800.0, 1500.5])), "foff": -draw(st.sampled_from([1.0, 4.0, 0.5, 10.0]))}
 
 
@@ -93,8 +94,9 @@ class Setup:
         self.eff = self.N - self.start if self.nsamps is None else self.nsamps
         self.X = self.D[self.start : self.start + self.eff]
         self.nbits = self.lay["nbits"]
+        self.default_names = bool(case.get("default_names"))
         self.reader = lambda: vs.apply_prior_use(FilReader(self.paths), case.get("prior"))
-        self.kw = {"gulp": self.gulp, "start": self.start, "nsamps": self.nsamps, "quiet": True, "description": "v"}
+        self.kw = vs.as_np_ints({"gulp": self.gulp, "start": self.start, "nsamps": self.nsamps, "quiet": True, "description": "v"}, case.get("np_ints"))
         self.big = dict(self.kw, gulp=self.eff + 7)
         self.ctxt = (f"N={self.N} nchans={self.nchans} nbits={self.nbits} split={self.lay['split']} start={self.start} "
                      f"nsamps={self.nsamps} gulp={self.gulp}")
@@ -104,15 +106,31 @@ class Setup:
             self.labels.append("subrange")
         if self.multi:
             self.labels.append("multi_block")
+        if self.default_names:
+            self.labels.append("default_output_names")
+            self.ctxt += " output_names=default"
 
-    def out(self, name):
+    def out(self, name, primary=False):
+        """Output name handed to the library.  For the primary run of a case with `default_names` it is None: the
+        library then chooses its documented default name (relative to the working directory)."""
+        if primary and self.default_names:
+            return None
         return os.path.join(self.dir, name)
 
     def call(self, name, fn):
+        cwd = os.getcwd()
         try:
-            return fn()
+            os.chdir(self.dir)  # default output names are relative to the working directory
+            ret = fn()
         except Exception as exc:  # noqa: BLE001
             raise Violation(f"{name}:raised:{type(exc).__name__}", f"{self.ctxt}: {exc!r}") from exc
+        finally:
+            os.chdir(cwd)
+        if isinstance(ret, str) and not os.path.isabs(ret):
+            ret = os.path.join(self.dir, ret)
+        elif isinstance(ret, (list, tuple)) and ret and all(isinstance(r, str) for r in ret):
+            ret = [r if os.path.isabs(r) else os.path.join(self.dir, r) for r in ret]
+        return ret
 
     def parse(self, name, path, want_nbits, want_nchans, want_rows):
         """Well-formedness of an output file + decoded (rows, nchans) array."""
@@ -156,7 +174,7 @@ def same(a, b):
 
 def check_invert(case, ctx):
     s = Setup(case, ctx)
-    o1 = s.call("invert_freq", lambda: s.reader().invert_freq(s.out("inv.fil"), **s.kw))
+    o1 = s.call("invert_freq", lambda: s.reader().invert_freq(s.out("inv.fil", True), **s.kw))
     arr, _ = s.parse("invert_freq", o1, s.nbits, s.nchans, s.eff)
     if not same(arr, s.X[:, ::-1]):
         raise Violation("invert_freq:values", s.ctxt)
@@ -182,7 +200,7 @@ def check_mask(case, ctx):
     s = Setup(case, ctx)
     mask = np.array(case["mask"], dtype=bool)
     mv = case["mask_value"]
-    o1 = s.call("apply_channel_mask", lambda: s.reader().apply_channel_mask(mask, mv, s.out("m.fil"), **s.kw))
+    o1 = s.call("apply_channel_mask", lambda: s.reader().apply_channel_mask(mask, mv, s.out("m.fil", True), **s.kw))
     arr, _ = s.parse("apply_channel_mask", o1, s.nbits, s.nchans, s.eff)
     want = s.X.copy()
     want[:, mask] = np.asarray(mv).astype(want.dtype)
@@ -208,7 +226,7 @@ def strat_samps(draw, tier):
 
 def check_samps(case, ctx):
     s = Setup(case, ctx)
-    o1 = s.call("extract_samps", lambda: s.reader().extract_samps(s.start, s.eff, s.out("s.fil"), gulp=s.gulp, quiet=True, description="v"))
+    o1 = s.call("extract_samps", lambda: s.reader().extract_samps(s.start, s.eff, s.out("s.fil", True), gulp=s.gulp, quiet=True, description="v"))
     arr, _ = s.parse("extract_samps", o1, s.nbits, s.nchans, s.eff)
     if not same(arr, s.X):
         raise Violation("extract_samps:values", s.ctxt)
@@ -238,7 +256,7 @@ def check_chans(case, ctx):
 
     def run(base, gulp):
         kw = dict(s.kw, gulp=gulp)
-        return s.reader().extract_chans(None if chans is None else np.array(chans), s.out(base), batch_size=case["batch"], **kw)
+        return s.reader().extract_chans(None if chans is None else np.array(chans), s.out(base, base == "c"), batch_size=case["batch"], **kw)
 
     names = s.call("extract_chans", lambda: run("c", s.gulp))
     require(isinstance(names, list) and len(names) == len(sel), "extract_chans:file-count", f"{s.ctxt}: {len(names)} files for {len(sel)} channels")
@@ -284,7 +302,7 @@ def check_bands(case, ctx):
     cs, nsel, cps = case["chanstart"], case["nsel"], case["cps"]
 
     def run(base, gulp):
-        return s.reader().extract_bands(cs, nsel, cps, s.out(base), batch_size=case["batch"], **dict(s.kw, gulp=gulp))
+        return s.reader().extract_bands(cs, nsel, cps, s.out(base, base == "b"), batch_size=case["batch"], **dict(s.kw, gulp=gulp))
 
     names = s.call("extract_bands", lambda: run("b", s.gulp))
     want_n = nsel // cps
@@ -323,7 +341,7 @@ def strat_down(draw, tier):
 def check_down(case, ctx):
     s = Setup(case, ctx)
     tf, ff = case["tfactor"], case["ffactor"]
-    o1 = s.call("downsample", lambda: s.reader().downsample(tf, ff, s.out("d.fil"), **s.kw))
+    o1 = s.call("downsample", lambda: s.reader().downsample(tf, ff, s.out("d.fil", True), **s.kw))
     rows = s.eff // tf
     arr, _ = s.parse("downsample", o1, s.nbits, s.nchans // ff, rows)
     m = oracles.block_mean(s.X, tf, ff)
@@ -378,7 +396,7 @@ def check_sub(case, ctx):
         return Info(False, ("skipped",))
     nsub = case["nsub"]
     ctxt = f"{s.ctxt} dm={dm} nsub={nsub} delays={delays.tolist()}"
-    o1 = s.call("subband", lambda: rd.subband(dm, nsub, s.out("sb.fil"), **s.kw))
+    o1 = s.call("subband", lambda: rd.subband(dm, nsub, s.out("sb.fil", True), **s.kw))
     want = oracles.subband_sum(s.X, delays, nsub)
     arr, _ = s.parse("subband", o1, 32, nsub, want.shape[0])
     if not np.array_equal(arr.astype(np.float64), want):
@@ -415,7 +433,7 @@ def check_zerodm(case, ctx):
         for r in defs:
             if r.min() < 0 or r.max() > top:
                 return Info(False, ("excluded:leaves_range",))
-    o1 = s.call("remove_zerodm", lambda: s.reader().remove_zerodm(s.out("z.fil"), **s.kw))
+    o1 = s.call("remove_zerodm", lambda: s.reader().remove_zerodm(s.out("z.fil", True), **s.kw))
     arr, _ = s.parse("remove_zerodm", o1, s.nbits, s.nchans, s.eff)
     a = arr.astype(np.float64)
     if s.nbits == 32:
